@@ -75,7 +75,7 @@ def e3_task(payload):
     for bad in payload['subsets']:
         for assignment in payload['assignments']:
             spec = {'base': base_key, 'inputs': case['inputs'], 'outputs': outputs, 'K': K, 'assignment': assignment, 'seed': 0,
-                    'cpu_count': payload.get('cpu_count'),
+                    'cpu_count': payload.get('cpu_count'), 'relative_out': payload.get('relative_out', False),
                     'script': {'ok': [case['ok'](k) for k in range(K)], 'bad': list(bad), 'bad_value': case['bad_value']}}
             tag = runner.fork_exec(MC.mc_main_execution, spec, timeout=900)
             res['execs'] += 1
@@ -85,7 +85,9 @@ def e3_task(payload):
                 continue
             r = tag[1]
             res['accepted'] += 1
-            ctx = f'[{base_key}/{variant} K={K} failing={list(bad)} assignment={r.get("assignment_used")} cpu_count={payload.get("cpu_count")} work items={r.get("chunks")}]'
+            if r.get('stray'):
+                check.fail(res, 'rows/astray', f'[{base_key}/{variant} K={K} failing={list(bad)} assignment={r.get("assignment_used")}] relative result-file name: files appeared elsewhere in the source tree: {r["stray"]}')
+            ctx = f'[{base_key}/{variant}{" relative result-file name" if payload.get("relative_out") else ""} K={K} failing={list(bad)} assignment={r.get("assignment_used")} cpu_count={payload.get("cpu_count")} work items={r.get("chunks")}]'
             ok_tasks = [o for o in r['outcomes'] if o[2] == 'ok']
             exp_ok = [k for k in range(K) if k not in bad]
             if sorted(o[0] for o in ok_tasks) != exp_ok:
@@ -174,7 +176,7 @@ def e3_task(payload):
                             txt = stats.get(o, {}).get(k)
                             if txt is None or txt != f'{js.get(k, math.nan):,.2f}':
                                 check.fail(res, f'stats/text-vs-json/{k}', f'{ctx} {o}: text block shows {txt!r}, JSON value formats to {js.get(k, math.nan):,.2f}')
-            d = check.digest([base_key, variant, K, list(bad), r.get('assignment_used')])
+            d = check.digest([base_key, variant, K, list(bad), r.get('assignment_used'), payload.get('relative_out', False)])
             res['states'].append(d)
             if bad and max(r.get('assignment_used') or [0]) > 0:
                 res['nontrivial'].append(d)
@@ -199,6 +201,10 @@ def plan(tier, seed):
         for variant in case['outputs']:
             for sub in subsets:
                 P.append({'kind': 'e3', 'base': base_key, 'variant': variant, 'K': K, 'subsets': [sub], 'assignments': assignments})
+    # the result file named RELATIVELY in the settings file (resolved against the Monte-Carlo package directory, a private view of it here):
+    # every fail subset x assignment again, for the GEOPHIRES base whose runs change directory
+    for sub in subsets:
+        P.append({'kind': 'e3', 'base': 'elec', 'variant': 'plain', 'K': K, 'subsets': [sub], 'assignments': assignments, 'relative_out': True})
     # long runs as seen by the pool: K iterations on a machine that reports 1 CPU (environment answer), at most one failing
     # iteration (deviation bound 1; thorough 2); work items are whatever the driver hands to map() - the assignments enumerate those
     KL = 8 if tier == 'quick' else 12
@@ -238,7 +244,7 @@ def run(tier, seed, budget=None):
         sys.modules[__name__], PID, tier, seed, budget, level='fault_enumeration',
         rule=('E3 fault enumeration: bases {GEOPHIRES electricity, GEOPHIRES heat, HIP-RA-X} x output lists {found once, one label found twice, '
               'one label absent} x K scripted iterations (quick 3, thorough 4) x ALL 2^K subsets of out-of-range iterations x ALL assignments to '
-              '<=W workers (quick 2, thorough 3); every surviving row re-simulated through the real client and compared token by token in header '
+              '<=W workers (quick 2, thorough 3), the electricity base also with a relative result-file name in the settings file; every surviving row re-simulated through the real client and compared token by token in header '
               'order; statistics recomputed from the rows; E4: all interleavings of two (thorough: three) concurrent appends with rows of '
               'different lengths (thorough: one > 8 KiB, up to 4) up to 3 (6) preemptions; long runs: K=8 (12) iterations with the pool seeing 1 CPU (environment answer), '
               'at most 1 (2) failing iterations, assignments of whatever work items the driver hands to map(); K=33 (thorough also 64) with every position of one failing iteration. Non-trivial = at least one failing iteration and more than '
